@@ -547,12 +547,31 @@ func c05SortedIn(c *core.Ctx, rule string, rels []string) {
 	}
 	found := false
 	dci, dok := deleteFiltered()
-	for _, ci := range facts.CallsIn(mk) {
-		if bi, ok := ci.Common().Value.(*ssa.Builtin); !ok || bi.Name() != "append" {
-			continue
+	// collection sites: `ks = append(ks, k)` or `ks[n] = k`
+	type site struct {
+		pos token.Pos
+		b   *ssa.BasicBlock
+	}
+	var sites []site
+	for _, b := range mk.Blocks {
+		for _, in := range b.Instrs {
+			switch x := in.(type) {
+			case *ssa.Call:
+				if bi, ok := x.Call.Value.(*ssa.Builtin); ok && bi.Name() == "append" {
+					sites = append(sites, site{x.Pos(), b})
+				}
+			case *ssa.Store:
+				if ia, ok := x.Addr.(*ssa.IndexAddr); ok {
+					if _, isSlice := ia.X.Type().Underlying().(*types.Slice); isSlice {
+						sites = append(sites, site{x.Pos(), b})
+					}
+				}
+			}
 		}
+	}
+	for _, st := range sites {
 		strict := false
-		for _, cd := range facts.CondsAt(ci.Block()) {
+		for _, cd := range facts.CondsAt(st.b) {
 			if strictCmp(cd) {
 				strict = true
 			}
@@ -562,7 +581,7 @@ func c05SortedIn(c *core.Ctx, rule string, rels []string) {
 			c.Check(dok, rule, "ocimem.mapKeysIter/strictly-after", dci.Pos(), "keys not satisfying cmp(startAfter, k) < 0 are removed by slices.DeleteFunc and its result is what is sorted", "the key filter (slices.DeleteFunc) does not remove exactly the keys failing the strict test cmp(startAfter, k) < 0, or its result is not the slice that is sorted: the start point itself (or items before it) would be listed")
 			continue
 		}
-		c.Check(strict, rule, "ocimem.mapKeysIter/strictly-after", ci.Pos(), "keys kept only under cmp(startAfter, k) < 0", "the key filter is not the strict test cmp(startAfter, k) < 0: the start point itself (or items before it) would be listed")
+		c.Check(strict, rule, "ocimem.mapKeysIter/strictly-after", st.pos, "keys kept only under cmp(startAfter, k) < 0", "the key filter is not the strict test cmp(startAfter, k) < 0: the start point itself (or items before it) would be listed")
 	}
 	if !found {
 		c.Fail(rule, "ocimem.mapKeysIter/strictly-after", mk.Pos(), "no filtered append found")
